@@ -156,14 +156,28 @@ def run(v, tier, seed):
         meta.append((kind, text, malformed))
         vn = (next(iter(m)) if isinstance(m, dict) and m else "?")
         hist[f"{kind}:{vn}"] = hist.get(f"{kind}:{vn}", 0) + 1
+    # value level: entries of the store's file / sync format, built in memory (not parsed from text)
+    f8_lines = []
+    for val in ({"Cas": [1, 2]}, {"Cas": [None, 0]}, {"Cas": [{"Cas": [1, 2]}, 18446744073709551615]}):      # (a plain null is lost one level up, in the node: C09)
+        f8_lines.append(f"entryP j{jd(val).encode().hex()}")
+    for k_, val in (("entryP", 1), ("entryP", {"Cas": 1}), ("entryP", {"Cas": [1]}), ("entryP", {"Cas": [1, "2"]}), ("entryP", {"Cas": [1, 2, 3]}), ("entryP", {"cas": [1, 2]}),
+                    ("entryP", {"Cas": [1, -1]}), ("entryP", {"Cas": [1, 2], "x": 1}), ("entryP", None), ("entryC:0", None), ("entryC:7", {"Cas": [1, 2]}), ("entryC:18446744073709551615", [1, None]), ("entryP", "s")):
+        lines.append(f"{k_} j{jd(val).encode().hex()}"); meta.append(("entry", jd(val), False))
     per = 2000
-    cases = [(f"b{j}", lines[j:j + per]) for j in range(0, len(lines), per)]
+    cases = [(f"b{j}", lines[j:j + per]) for j in range(0, len(lines), per)] + [("F8-entries", f8_lines)]
     cpath = os.path.join(work, "cases.txt")
     write_cases(cpath, cases)
     impl, model = run_engine("codec", "codec_driver", cpath, work)
     A, B = read_obs(impl), read_obs(model)
-    a = [l for nm, _ in cases for l in A[nm]]
-    b = [l for nm, _ in cases for l in B[nm]]
+    a = [l for nm, _ in cases if nm != "F8-entries" for l in A[nm]]
+    b = [l for nm, _ in cases if nm != "F8-entries" for l in B[nm]]
+    for x, y, src in zip(A["F8-entries"], B["F8-entries"], f8_lines):
+        if x != y:
+            v.violation({"what": "model and implementation disagree on a value entry", "input": src, "impl": x, "model": y, "broken_obligation": "correspondence codec/C14 (Model/Entry.v enc_entry / dec_entry)"}, no_input=True)
+        elif " rt=0 " in x:
+            v.known("F8", "a plain value of the shape {\"Cas\":[x,n]} does not survive the ValueEntry format: it reads back as the CAS entry (x, n) (common/lib.rs:145-149)")
+        else:
+            v.violation({"what": "an entry of the class of known finding F8 round-trips now: the finding no longer reproduces (remove it from known_findings.json)", "input": src, "impl": x}, no_input=True)
     decoded = rejected = 0
     distinct = set()
     samples = []
